@@ -57,6 +57,12 @@ def _raw_equal(a, b):
     return a.astype(a.dtype.newbyteorder('<')).tobytes() == b.astype(b.dtype.newbyteorder('<')).tobytes()
 
 
+def _as_shape(v, shape):
+    """reshape when the sizes agree (pydicom / Image drop unit dimensions), else leave as is"""
+    v = np.asarray(v)
+    return v.reshape(shape) if v.size == int(np.prod(shape)) else v
+
+
 def _try(f, *a, **k):
     try:
         return ('ok', f(*a, **k))
@@ -341,7 +347,7 @@ def _check_pm(ctx, idx, reqs, pending):
     impl = {'element': present[0] if present else None, 'ba': int(pm.BitsAllocated), 'bs': int(pm.get('BitsStored', -1)),
             'hb': int(pm.get('HighBit', -1)), 'pr': int(pm.get('PixelRepresentation', -1)), 'rows': int(pm.Rows), 'cols': int(pm.Columns),
             'frames': int(pm.NumberOfFrames), 'pixelData': None, 'perFrame': [], 'answers': []}
-    if d['ts'] in NATIVE:
+    if d['ts'] in NATIVE and elem in pm:
         raw = bytes(getattr(pm, elem))
         exp = want.astype(want.dtype.newbyteorder('<')).tobytes()
         obs('stored-bytes', raw[:len(exp)] == exp and len(raw) in (len(exp), len(exp) + 1),
@@ -375,7 +381,7 @@ def _check_pm(ctx, idx, reqs, pending):
         obs('write', False, f'cannot be written: {blob}')
         return
     stp, back = _try(lambda: pydicom.dcmread(io.BytesIO(blob)).pixel_array)
-    obs('pydicom', stp == 'ok' and _raw_equal(np.asarray(back).reshape(want.shape), want),
+    obs('pydicom', stp == 'ok' and _raw_equal(_as_shape(back, want.shape), want),
         f'pydicom pixel_array after a file round trip: {back if stp != "ok" else "differs from the input planes"}')
     # ---- the image interface
     for lazy in (False, True):
@@ -399,7 +405,7 @@ def _check_pm(ctx, idx, reqs, pending):
         s3, v = _try(im.get_stored_frames)
         obs(f'{tag}/get_stored_frames-all', s3 == 'ok' and _raw_equal(v, want), v if s3 != 'ok' else None, None, float=is_float)
         s4, v = _try(lambda: im.pixel_array)
-        obs(f'{tag}/pixel_array', s4 == 'ok' and _raw_equal(np.asarray(v).reshape(want.shape), want), v if s4 != 'ok' else None, None,
+        obs(f'{tag}/pixel_array', s4 == 'ok' and _raw_equal(_as_shape(v, want.shape), want), v if s4 != 'ok' else None, None,
             float=is_float)
         # real-world value mapping attached to the frame
         for f in range(F):
@@ -538,6 +544,11 @@ def _sc_valid(dt, ba, shape, pi, ts):
 
 
 def _sc_array(nr, dt, ba, shape, big_values=False):
+    if isinstance(big_values, int) and not isinstance(big_values, bool):
+        # 12-bit boundary probe: all values below 4096 except one that equals `big_values`
+        a = nr.integers(0, 4095, size=shape, endpoint=True).astype(dt)
+        a.flat[a.size // 2] = big_values
+        return a
     if dt == 'bool':
         return nr.random(shape) < 0.5
     if dt.startswith('float'):
@@ -570,7 +581,7 @@ def _check_sc(ctx, label, dt, ba, shape, pi, ts, cs, idx, layout='c', big_values
     case = {'kind': 'sc', 'label': label, 'dtype': dt, 'ba': ba, 'shape': list(shape), 'pi': pi, 'ts': ts, 'cs': cs, 'idx': idx,
             'layout': layout, 'big_values': big_values}
     valid = _sc_valid(dt, ba, shape, pi, ts)
-    fits = not (ba == 12 and dt == 'uint16' and int(a.max()) >= 4096)
+    fits = not (ba == 12 and dt == 'uint16' and a.size and int(a.max()) >= 4096)
     outcome = 'accepted' if st == 'ok' else 'refused'
     nontriv = None
     if st == 'ok' and a.size > 1 and a.min() != a.max():
@@ -645,8 +656,10 @@ def _sc_cells(ctx, reqs, pending):
             _check_sc(ctx, 'shape', dt, ba, shp, pi, EXPLICIT, 'PATIENT', idx, reqs=reqs, pending=pending)
             idx += 1
     for ts in (EXPLICIT, IMPLICIT, JLS):
-        _check_sc(ctx, '12-bit overflow', 'uint16', 12, (16, 16), 'MONOCHROME2', ts, 'PATIENT', idx, big_values=True, reqs=reqs, pending=pending)
-        idx += 1
+        for big in (True, 4095, 4096, 4097, 8191):
+            _check_sc(ctx, '12-bit overflow', 'uint16', 12, (16, 16), 'MONOCHROME2', ts, 'PATIENT', idx, big_values=big, reqs=reqs,
+                      pending=pending)
+            idx += 1
 
 
 def _sc_random(ctx, reqs, pending):
